@@ -593,7 +593,7 @@ func checkC15(c *Ctx) {
 				return true
 			}
 		}
-		if d >= 2 {
+		if d >= 4 {
 			return false
 		}
 		sc := ir.StaticCallee(call)
